@@ -3,6 +3,8 @@ CFG = {'assumptions': ["64*len(bm) < 2^31 (Go's int32 positions cannot overflow;
                  'domain of the property: 0 <= i <= end <= 64*len(bm), i < 64*len(bm); PrevOne additionally end >= 1'],
  'files': ['bitmap/next.go', 'bitmap/mask.go'],
  'go': {'bitmap.Next/Get1': 'NextOne, PrevOne and bitmap.Get1 at the positions they return',
+        'bitmap.Next/Select32': 'the NextOne walk of the whole bitmap; bitmap.Select32 / bitmap.Select32R64 over '
+                                'bitmap.IndexSelect32 / IndexSelect32R64 for every index of the walk',
         'bitmap.Next/ToArray': 'the two walks over the whole bitmap and bitmap.ToArray',
         'bitmap.Next/count': 'rounds of the two walks of [i,end) and bitmap.Rank64(end) - bitmap.Rank64(i) over '
                              'bitmap.IndexRank64(bm, trailing)',
